@@ -157,6 +157,11 @@ class IterFlow:
             if cls.is_subclass_of(self.base):
                 for f in cls.funcs():
                     self.funcs[(cls.name, f.srcname)] = f
+        # recursive generators nested in a strategy (a closure over filter_/stop/maxlevel)
+        for (c_, n_), f_ in list(self.funcs.items()):
+            for g in f_.nested:
+                if not g.is_lambda and self.is_rec_strategy(g):
+                    self.funcs[("%s.%s" % (c_, n_), g.srcname)] = g
         # module-level helpers of the iterator modules (a strategy moved out of its class)
         self.modfuncs = {}
         for g in program.all_funcs:
@@ -223,8 +228,9 @@ class IterFlow:
         strategy arguments; -> (name, constant default or None) or None"""
         if f.srcname in ("__init", "_get_grandchildren", "_get_children", "_abort_at_level"):
             return None
-        extra = [p for p in f.posparams if p not in ("self", "children", "filter_", "stop", "maxlevel")]
-        if len(extra) != 1 or "children" not in f.posparams:
+        sp = IterFlow.seq_param(f)
+        extra = [p for p in f.posparams if p not in ("self", sp, "filter_", "stop", "maxlevel")]
+        if len(extra) != 1 or sp is None:
             return None
         a = f.node.args
         pos = a.posonlyargs + a.args
@@ -235,10 +241,23 @@ class IterFlow:
         return extra[0], dflt
 
     @staticmethod
+    def seq_param(f):
+        """the parameter that carries the node sequence of a strategy: `children`, or the first parameter of a nested /
+        module-level helper whatever it is called"""
+        ps = [p for p in f.posparams if p != f.selfname]
+        if "children" in ps:
+            return "children"
+        if f.srcname in ("__init", "_abort_at_level") or not ps:
+            return None
+        if (f.outer is not None or f.cls is None) and ps[0] not in ("filter_", "stop", "maxlevel", "level", "node"):
+            return ps[0]
+        return None
+
+    @staticmethod
     def is_rec_strategy(f):
         """a recursive generator over a `children` sequence (the shape of PostOrderIter.__next), whatever it is called
         and wherever it lives"""
-        if "children" not in f.posparams or not IterFlow._is_generator(f):
+        if IterFlow.seq_param(f) is None or not IterFlow._is_generator(f):
             return False
         for n in ast.walk(f.node):
             if isinstance(n, ast.Call):
@@ -268,8 +287,14 @@ class IterFlow:
             env[ps[0]] = ("iterself",)
             return env
         lp = self.level_param(f)
+        sp = self.seq_param(f)
+        if f.outer is not None and f.outer.srcname != "__init":
+            # a nested helper sees the enclosing strategy's parameters (closure)
+            for k_, v_ in self.entry_env(f.outer).items():
+                if k_ not in ps:
+                    env[k_] = v_
         for prm in ps:
-            if prm == "children":
+            if prm == sp and sp is not None:
                 if lp is not None:
                     env[prm] = Seq(("s", "level", 0), checked, False)
                 elif f.srcname == "_get_grandchildren":
@@ -835,6 +860,13 @@ class IterFlow:
                     if fn.attr == "_iter":
                         callee = "dispatch"
         if callee is None and isinstance(fn, ast.Name):
+            scope = f
+            while scope is not None and callee is None:
+                for g in scope.nested:
+                    if g.srcname == fn.id and not g.is_lambda:
+                        callee = g
+                scope = scope.outer
+        if callee is None and isinstance(fn, ast.Name):
             g = self.modfuncs.get((f.module.relpath, fn.id))
             if g is not None:
                 callee = g
@@ -902,7 +934,7 @@ class IterFlow:
         ps = callee.posparams
         b = dict(zip(ps, args))
         b.update(kw)
-        s = b.get("children")
+        s = b.get(self.seq_param(callee) or "children")
         if not isinstance(s, Seq):
             if rec:
                 self.problem("S3", f, e, "the sequence passed to %s is not a tracked node sequence" % callee.qual, undecided=True)
@@ -948,6 +980,8 @@ class IterFlow:
                                  "treats its argument as level 1: the depth limit is off by %s" % (
                                      lv_show(s.level), k, lv_show(rel), "one or more levels"))
         for opt in ("filter_", "stop"):
+            if opt not in callee.posparams and callee.outer is not None:
+                continue  # captured from the enclosing strategy (closure): the same option by construction
             if b.get(opt) != ("fn", opt):
                 self.problem("S4", f, e, "%s is not passed on unchanged to %s" % (opt, callee.qual))
             else:
